@@ -676,6 +676,95 @@ def _check_marker(g, un, rec, marker, spec, sites=None):
                 'does): states %s (N = does not)' % (un.name, marker, sorted(sts)))
 
 
+def _check_marker_own(g, un, rec, keys):
+    """The dual of _check_marker: the unregistration of one object overwrites the marker only while the marker
+    designates that object.  E = marker known to equal the object (tested on this path), U = not known.
+    Returns [(store event, ok)] for every store into the marker in the (inlined) unregister graph; a store of the
+    marker's own value is not an overwrite."""
+    def is_marker(x):
+        return _loc_key(x) in keys
+    objs = h01.object_vars(g, un, rec)
+    if not objs:
+        raise AnalysisBroken('%s: no parameter of kind %s' % (un.name, rec))
+    def is_obj(x):
+        return isinstance(x, dict) and bool(h01.var_names(x) & objs)
+    def refine(atoms, S):
+        for (op, lc, rc_, l, r) in atoms:
+            if op != '==':
+                continue
+            for (a, b) in ((l, r), (r, l)):
+                if isinstance(a, dict) and is_marker(a) and is_obj(b):
+                    S = frozenset('E')
+        return S
+    def allowed(x, S):
+        x = strip(x)
+        if isinstance(x, dict) and x.get('k') == 'cond':
+            return (allowed(x['a'], refine(norm_cond(x['c'], True), S)) and
+                    allowed(x['b'], refine(norm_cond(x['c'], False), S)))
+        if isinstance(x, dict) and is_marker(x):
+            return True
+        return S == frozenset('E')
+    def tr(e, S):
+        if e['ev'] == 'store' and is_marker(e['lhs']):
+            return frozenset('U')
+        return S
+    def edge(blk, si, S):
+        return refine(h01.edge_atoms(blk, si), S)
+    _, ev_in = forward(g, frozenset('U'), tr, lambda a, b: a | b, edge=edge)
+    out = []
+    for b, blk in g.blocks.items():
+        for i, e in enumerate(blk.events):
+            if e['ev'] == 'store' and is_marker(e['lhs']):
+                S = ev_in.get((b, i))
+                if S is None:
+                    continue                                  # unreachable after pruning
+                out.append((e, bool(e.get('op') == '=' and 'rhs' in e and allowed(e['rhs'], S))))
+    return out
+
+
+def marker_own(ctx, rid, recs):
+    """For every tabled marker holder of the kinds `recs`: in the unregister call of the kind (helpers inlined) every
+    store into the marker happens only where the marker was tested equal to the object being unregistered -- the
+    unregistration of another object of the kind leaves the marker (and so the deliveries still due to the object
+    being handled) alone.  Borrowed by C11 (R-C11i)."""
+    prog = ctx.prog
+    found = dict(discover_holders(prog))
+    n = 0
+    for sig, spec in sorted(HOLDERS.items()):
+        if sig[0] != 'marker' or sig[1] not in recs or spec.get('check') != 'marker':
+            continue
+        cands = [k for k in found if k[0] == 'marker' and k[1] == sig[1]]
+        k = sig if sig in found else (cands[0] if len(cands) == 1 else None)
+        if k is None:
+            raise AnalysisBroken('marker holder of %s not found' % sig[1])
+        rec = sig[1]
+        if not (rec in UNREGISTER and prog.has_fn(UNREGISTER[rec])):
+            raise AnalysisBroken('unregister call of kind %s not found' % rec)
+        un = prog.fn(UNREGISTER[rec])
+        keys = {_loc_key(e['lhs']) for (_, e) in found[k]} - {None}
+        if not keys:
+            keys = {tuple(k[2].split('.'))}
+        g = h01.inlined(prog, un, expand_methods=True, prune=True)
+        res = _check_marker_own(g, un, rec, keys)
+        if not res:
+            raise AnalysisBroken('%s never writes the marker %s' % (un.name, k[2]))
+        byloc = {}
+        for e, ok in res:
+            byloc.setdefault(e['loc'], []).append((e, ok))
+        for loc in sorted(byloc):
+            ok = all(o for _, o in byloc[loc])
+            e0 = byloc[loc][0][0]
+            n += 1
+            ctx.ob(rid, '%s:marker-cleared-only-for-own-object %s' % (un.name, k[2]), ok, loc=loc,
+                   detail=('%s overwrites the handled-object marker %s only on paths where it was tested equal to the %s '
+                           'being unregistered' % (un.name, k[2], rec)) if ok else
+                          ('%s overwrites the marker %s (%s) on a path where it was not tested equal to the %s being '
+                           'unregistered: unregistering another object from a handler makes the delivery loop believe '
+                           'the object it is handling is gone' % (un.name, k[2], describe(e0), rec)),
+                   path=None if ok else path_to(g, e0), fn=un.q)
+    return n
+
+
 def _index_fixed(g, objs, idxkeys, free, with_edges):
     """at a point: the index field of the object holds `free` (stored, or tested equal) and nothing that may
     alias the object stored another value since"""
